@@ -9,11 +9,14 @@ from .. import tir as T
 from ..facts import VERIF, nhir, walk
 
 META = ("other",
-        "C04.R1 Iden::quoted replaces every closing-quote byte by two of them and the default Iden::prepare emits left quote + "
+        "C04.R1 Iden::quoted (interpreted on every name of length <= 2 over letters, all dialects' quote characters and a "
+        "multi-byte character, length 3 over the quote characters, for each quote pair; shape rule as fallback) replaces every "
+        "closing-quote byte by two of them and the default Iden::prepare emits left quote + "
         "quoted(q) + right quote; the backend QUOTE constants are the dialect's identifier quote (left = right), so doubling is "
         "the engine's decoding rule; R2 dataflow over the template IR of every writer function: whatever is emitted between a "
         "left-quote hole and the next right-quote hole is a quote-free literal or Iden::quoted with the same quote; R3 every "
-        "identifier written raw outside quotes is a reviewed raw-by-contract sink; R4 no impl of Iden overrides prepare/quoted "
+        "identifier - or text cut out of an identifier's name (slices, split_at, traced through locals) - written raw outside "
+        "quotes is a reviewed raw-by-contract sink; R4 no impl of Iden overrides prepare/quoted "
         "and the identifier positions of the renderers reach Iden::prepare (site floor)",
         "one obligation per structural condition, per quote-delimited region, per raw identifier sink, per Iden impl")
 
